@@ -75,8 +75,65 @@ def _swap_seq(q, i):
     return c
 
 
+def _n_hard(tracks):
+    return tracks.Where(lambda j: j.pt() > 30).Count()
+
+
+def _scaled(x):
+    return (lambda e: e + x)(1)
+
+
+def _b_helper_collision(ds):
+    return ds.SelectMany(lambda e: e.Jets("AntiKt4")).Select(lambda j: _n_hard(j.Tracks()))
+
+
+def _b_helper_collision2(ds):
+    return ds.SelectMany(lambda e: e.Electrons("Loose")).Select(lambda j: _n_hard(j.Clusters()))
+
+
+def _b_called_lambda(ds):
+    return ds.Select(lambda e: _scaled(e.met())).Where(lambda e: (lambda e: e > 0)(e))
+
+
+def _b_plain(ds):
+    return ds.Where(lambda e: e.met() > 1).Select(lambda e: (e.met(), e.Jets("x").Count()))
+
+
+BUILDERS = [_b_helper_collision, _b_helper_collision2, _b_called_lambda, _b_plain]
+
+
+def built_twice(t):
+    """The same query built by the same code twice in one process, with other queries built in
+    between, is the same structure and hashes the same ('nor the time'; seed C20_h: binder names
+    invented while a helper is inlined came from a process-wide counter)."""
+    from func_adl import EventDataset
+    from func_adl.ast.ast_hash import calc_ast_hash
+
+    class DS(EventDataset):
+        async def execute_result_async(self, a, title=None):
+            return a
+
+    first = {}
+    for rnd in range(3):
+        for b in (BUILDERS if rnd != 1 else list(reversed(BUILDERS))):
+            name = b.__name__
+            t.case(f"C20:built-twice:{name}:{rnd}", True, sample=name)
+            t.contract("the same query built again => equal hash")
+            sent = b(DS()).value()
+            h = calc_ast_hash(sent)
+            if name not in first:
+                first[name] = (h, ast.unparse(sent))
+            elif first[name][0] != h:
+                t.violation("calc_ast_hash:ensures result == H(dump(a)) [equal structure, equal "
+                            "hash]", "the same query built a second time in this process hashes "
+                            "differently", "built-twice:" + name, first[name][1],
+                            ast.unparse(sent), {"kind": "C20", "src": "built-twice:" + name})
+                return
+
+
 def run(t):
     from func_adl.ast.ast_hash import calc_ast_hash
+    built_twice(t)
     rng = t.rng
     quick = t.tier == "quick"
     base = [s for s, k in gen.chains(3, 1, "distinct", rng=rng, per_stage=4 if quick else 8)]
